@@ -37,17 +37,15 @@ Proof.
     replace (rv r =? a) with false by lia. replace (b =? a) with false by lia. reflexivity.
 Qed.
 
-Lemma match_63 {A} (l : list N) (X : list N -> A) (Z : A) :
-  match l with 63 :: rest => X rest | _ => Z end =
-  match l with x :: rest => if x =? 63 then X rest else Z | [] => Z end.
+Lemma strip63 (l : list N) :
+  match l with 63 :: rest => rest | _ => l end = match l with x :: rest => if x =? 63 then rest else l | [] => l end.
 Proof.
   destruct l as [|x rest]; [reflexivity|]. destruct x as [|p]; [reflexivity|].
   do 7 (destruct p as [p|p|]; try reflexivity).
 Qed.
 
-Lemma match_35 {A} (l : list N) (X : list N -> A) (Z : A) :
-  match l with 35 :: rest => X rest | _ => Z end =
-  match l with x :: rest => if x =? 35 then X rest else Z | [] => Z end.
+Lemma strip35 (l : list N) :
+  match l with 35 :: rest => rest | _ => l end = match l with x :: rest => if x =? 35 then rest else l | [] => l end.
 Proof.
   destruct l as [|x rest]; [reflexivity|]. destruct x as [|p]; [reflexivity|].
   do 7 (destruct p as [p|p|]; try reflexivity).
@@ -325,10 +323,8 @@ Section Api.
       + rewrite potentially_strip_same by (left; rewrite E; discriminate). apply setter_rel_done. exact HR1.
       + pose proof (strip_opaque_spec _ _ HR1 E eq_refl) as G.
         destruct (strip_opaque (set_fragment u None)); [apply setter_rel_done; exact G|contradiction].
-    - destruct (runes (b :: s')) as [|x rest] eqn:E; [apply (proj1 (runes_nil_iff _)) in E; discriminate E|].
-      rewrite <- E. rewrite match_35.
-      pose proof (runes_trim_prefix1 35 (b :: s') ltac:(lia)) as Ht. rewrite E in Ht. rewrite E.
-      replace (if x =? 35 then rest else x :: rest) with (runes (trim_prefix1 35 (b :: s'))).
+    - rewrite strip35, <- (runes_trim_prefix1 35 (b :: s')) by lia.
+      destruct (runes (b :: s')) as [|x rest] eqn:E; [apply (proj1 (runes_nil_iff _)) in E; discriminate E|].
       apply (override_setter (trim_prefix1 35 (b :: s')) (set_fragment u (Some [])) (SU.with_fragment su (Some [])) FragmentSt).
       cbn [st_rel SB.m_url SB.m_buffer]. exists []. split; [reflexivity|]. split; [reflexivity|].
       apply R_Rf. exact (R_set_fragment u su (Some []) HR).
@@ -372,18 +368,20 @@ Section Api.
       + rewrite potentially_strip_same by (right; rewrite E; discriminate). apply setter_rel_done. exact HR2.
       + pose proof (strip_opaque_spec _ _ HR2 eq_refl E) as G.
         destruct (strip_opaque u2); [apply setter_rel_done; exact G|contradiction].
-    - destruct (runes (b :: s')) as [|x rest] eqn:E; [apply (proj1 (runes_nil_iff _)) in E; discriminate E|].
-      rewrite <- E. rewrite match_63.
-      pose proof (runes_trim_prefix1 63 (b :: s') ltac:(lia)) as Ht. rewrite E in Ht. rewrite E.
-      replace (if x =? 63 then rest else x :: rest) with (runes (trim_prefix1 63 (b :: s'))).
+    - rewrite strip63, <- (runes_trim_prefix1 63 (b :: s')) by lia.
+      destruct (runes (b :: s')) as [|x rest] eqn:E; [apply (proj1 (runes_nil_iff _)) in E; discriminate E|].
       set (x0 := trim_prefix1 63 (b :: s')).
-      set (u1 := match u_query u with None => set_query u (Some []) | Some _ => u end).
+      assert (Hu1 : exists u1, u1 = match u_query u with None => set_query u (Some []) | Some _ => u end /\
+                                is_some (u_query u1) = true /\ Rq u1 (SU.with_query su (Some []))).
+      { destruct (u_query u) as [mq|] eqn:Equ; eexists; (split; [reflexivity|]); split.
+        - rewrite Equ. reflexivity.
+        - apply Rq_with_query, R_Rq, HR.
+        - reflexivity.
+        - apply (Rq_query u su (Some []) (Some [])). apply R_Rq. exact HR. }
+      destruct Hu1 as [u1 [Eu1 [Hq1 HRq1]]]. rewrite <- Eu1.
       assert (Hst : st_rel true None QuerySt (-1) [] u1 (SB.mkM (SU.with_query su (Some [])) (st_map QuerySt) [] false false false 0)).
-      { cbn [st_rel SB.m_url SB.m_buffer]. exists []. split; [reflexivity|]. split.
-        - unfold u1. destruct (u_query u); reflexivity.
-        - split; [reflexivity|].
-          assert (G : Rq u (SU.with_query su (Some []))) by (apply Rq_with_query, R_Rq, HR).
-          unfold u1. destruct (u_query u); [exact G|]. apply (Rq_query u su (Some []) (Some [])). apply R_Rq. exact HR. }
+      { cbn [st_rel SB.m_url SB.m_buffer]. exists []. split; [reflexivity|]. split; [exact Hq1|].
+        split; [reflexivity|exact HRq1]. }
       pose proof (override_setter x0 u1 (SU.with_query su (Some [])) QuerySt Hst) as H.
       unfold setter_rel in *. destruct H as [Eo|H]; [left; exact Eo|].
       (* the standard's result has a non-null query *)
